@@ -16,6 +16,7 @@ package ping
 
 import (
 	"encoding/binary"
+	"math"
 	"sync"
 
 	"github.com/brewlin/net-protocol/pkg/sleep"
@@ -289,6 +290,16 @@ func (e *endpoint) Write(p tcpip.Payload, opts tcpip.WriteOptions) (uintptr, <-c
 			}
 			return 0, nil, err
 		}
+	}
+
+	// The message (ICMP header included) has to fit the 16-bit length
+	// fields of the IP header it is sent in.
+	maxSize := math.MaxUint16
+	if e.netProto == header.IPv4ProtocolNumber {
+		maxSize -= header.IPv4MinimumSize
+	}
+	if p.Size() > maxSize {
+		return 0, nil, tcpip.ErrMessageTooLong
 	}
 
 	v, err := p.Get(p.Size())
